@@ -780,6 +780,25 @@ def rule_policy(ctx: Ctx) -> None:
             cand += [(f_, n_, why) for _x, why in narrowings(src)]
     ctx.add("3-policy", cand[0][0] if cand else hyb.methods["put"], cand[0][1] if cand else hyb.methods["put"].node, not cand, "Hybrid scores every resident entry before it picks the victim" if not cand else
             f"the eviction candidates of HybridCache are restricted ({cand[0][2]}): the entry with the lowest score may be exempt - another entry is evicted in its place, and with a single resident entry min() of nothing raises", key="hybrid-all-candidates")
+    # cache keys are only hashed and compared for EQUALITY: a selection that orders tuples which contain the key falls through to
+    # comparing the keys when the leading components tie (TypeError for keys of different types; otherwise the smallest key, not the
+    # oldest tied entry, is the victim)
+    ordered_keys = []
+    for cname_ in ("HybridCache", "LRUCache"):
+        for f_, n_ in Scope(ctx, ctx.prog.cls(f"{MOD}.{cname_}").methods["put"]).walk():
+            if isinstance(n_, ast.Call) and dotted(n_.func) in ("min", "max", "sorted") and n_.args and not any(k.arg == "key" for k in n_.keywords):
+                src = Defs(f_).resolve(n_.args[0])
+                if isinstance(src, (ast.GeneratorExp, ast.ListComp, ast.SetComp)) and isinstance(src.elt, ast.Tuple) and len(src.generators) == 1:
+                    tvars = {x.id for x in ast.walk(src.generators[0].target) if isinstance(x, ast.Name)}
+                    it_txt = norm(src.generators[0].iter)
+                    over_keys = any(w in it_txt for w in ("_cache_dict", "_access_counts", "_computation_durations", "_cache_queue"))
+                    bare = [e for e in src.elt.elts if isinstance(e, ast.Name) and e.id in tvars]
+                    if over_keys and bare and not (it_txt.endswith(".values()")):
+                        ordered_keys.append((f_, n_, bare[0].id))
+    ctx.add("3-policy", ordered_keys[0][0] if ordered_keys else hyb.methods["put"], ordered_keys[0][1] if ordered_keys else hyb.methods["put"].node, not ordered_keys,
+            "no selection orders tuples that contain a cache key" if not ordered_keys else
+            f"`{norm(ordered_keys[0][1])[:70]}` orders tuples that contain the cache key `{ordered_keys[0][2]}`: when the scores tie the KEYS are compared - put raises TypeError for keys that cannot be ordered (1 and 'a'), "
+            "and among orderable keys the smallest key is evicted instead of the first of the tied entries", key="keys-never-ordered")
     disk = ctx.prog.cls(f"{MOD}.DiskCache")
     ev = disk.methods["_evict_if_needed"]
     dsc = Scope(ctx, ev)
@@ -1179,6 +1198,20 @@ def rule_disk_levels(ctx: Ctx) -> None:
     g, c = levels["get"], levels["__contains__"]
     ctx.tri("9-levels", disk.methods["__contains__"], disk.methods["__contains__"].node, g == c and bool(g), bool(g) and bool(c) and g != c,
             f"`in` and get() consult the same levels {sorted(g)}", f"get() answers from {sorted(g)} but `in` only looks at {sorted(c)}: a key can be reported absent while get() returns its value (or the reverse)", key="contains-vs-get")
+    # a READ leaves the directory alone: it neither rewrites the entry (which makes it the newest file and a later eviction
+    # delete a different one) nor evicts
+    from ..effects import FS_DELETE, FS_WRITE
+
+    for m in ("get", "__contains__", "__len__"):
+        fn = disk.methods[m]
+        bad = []
+        for site in ctx.cg.sites.get(fn.qualname, []):
+            for callee in site.callees:
+                if callee.cls is not None and callee.cls.qualname == disk.qualname and (ctx.effects.has(callee.qualname, FS_WRITE) or ctx.effects.has(callee.qualname, FS_DELETE)):
+                    bad.append((site.node, callee))
+        ctx.add("9-levels", fn, bad[0][0] if bad else fn.node, not bad, f"DiskCache.{m} does not write or delete cache files" if not bad else
+                f"DiskCache.{m} calls `{norm(bad[0][0])[:50]}`, which writes / deletes cache files: a read rewrites the entry (it is no longer the oldest file) and runs the eviction - "
+                "the next overflowing put deletes a different file than the one the policy names", key=f"read-only {m}")
 
 
 ITERATING = {"list", "tuple", "set", "frozenset", "sorted", "min", "max", "sum", "iter", "enumerate", "zip", "map", "filter", "any", "all", "reversed"}
